@@ -106,7 +106,10 @@ pub open spec fn exp_fin(e: Exp) -> bool
         Exp::Number(v) => fv(v) is Fin,
         Exp::Variable(_) => true,
         Exp::Abs(i) | Exp::Not(i) | Exp::UnOp(_, i) => exp_fin(*i),
-        Exp::Min(es) | Exp::Max(es) | Exp::And(es) | Exp::Or(es) => forall|i: int| 0 <= i < es@.len() ==> exp_fin(#[trigger] es@[i]),
+        Exp::Min(es) => forall|i: int| 0 <= i < es@.len() ==> exp_fin(#[trigger] es@[i]),
+        Exp::Max(es) => forall|i: int| 0 <= i < es@.len() ==> exp_fin(#[trigger] es@[i]),
+        Exp::And(es) => forall|i: int| 0 <= i < es@.len() ==> exp_fin(#[trigger] es@[i]),
+        Exp::Or(es) => forall|i: int| 0 <= i < es@.len() ==> exp_fin(#[trigger] es@[i]),
         Exp::Xor(a, b) | Exp::Implies(a, b) | Exp::Iff(a, b) | Exp::BinOp(_, a, b) => exp_fin(*a) && exp_fin(*b),
     }
 }
@@ -122,4 +125,13 @@ pub proof fn lemma_exp_fin(e: Exp)
         e matches Exp::Xor(a, b) ==> exp_fin(e) == (exp_fin(*a) && exp_fin(*b)),
         e matches Exp::Implies(a, b) ==> exp_fin(e) == (exp_fin(*a) && exp_fin(*b)),
         e matches Exp::Iff(a, b) ==> exp_fin(e) == (exp_fin(*a) && exp_fin(*b)),
+{ reveal_with_fuel(exp_fin, 1); }
+// the list variants (kept apart from lemma_exp_fin: only the units that lower min / max / and / or need it)
+pub proof fn lemma_exp_fin_list(e: Exp)
+    requires exp_fin(e),
+    ensures
+        e matches Exp::Min(es) ==> (forall|k: int| 0 <= k < es@.len() ==> exp_fin(#[trigger] es@[k])),
+        e matches Exp::Max(es) ==> (forall|k: int| 0 <= k < es@.len() ==> exp_fin(#[trigger] es@[k])),
+        e matches Exp::And(es) ==> (forall|k: int| 0 <= k < es@.len() ==> exp_fin(#[trigger] es@[k])),
+        e matches Exp::Or(es) ==> (forall|k: int| 0 <= k < es@.len() ==> exp_fin(#[trigger] es@[k])),
 { reveal_with_fuel(exp_fin, 1); }
